@@ -239,7 +239,7 @@ func (cl *cluster) probeTLS(name, addr string, cfg *tls.Config, items [][]byte, 
 		}
 		acts := c.actions()
 		for _, t := range cl.S.Runnable() {
-			if l, ok := t.Obj.(*sim.Listener); ok && l.Addr().String() == addr {
+			if cl.isAcceptLoop(t, addr) {
 				t := t
 				acts = append(acts, sim.Action{Key: "run " + t.Name, Do: func() { cl.S.Release(t) }})
 			}
